@@ -27,6 +27,9 @@ def make_ds(ctx, rng, d):
     kinds = rng.sample(["int32", "float_nan", "str", "bool", "dt_ns", "Int64", "cat_str"], 3)
     for j, k in enumerate(kinds):
         df[f"c{j}"] = gen_column(rng, k, n, rng.choice(["none", "some"])).values if k not in ("Int64", "cat_str") else gen_column(rng, k, n, "some")
+    if d in (0, 2):
+        # a data column whose name collides with the reader's internal "<col>-catdef" naming of categorical views
+        df["zz-catdef"] = np.arange(n, dtype="float64") * 10
     layout = rng.choice(["simple", "simple", "hive", "hive-part2"])
     if d == 0:
         layout = "simple"
